@@ -305,6 +305,7 @@ func genC10(env *core.Env, emit func(core.Case)) {
 				c.mu.Lock()
 				events := append([]string{}, c.events...)
 				dl := c.deadline
+				wdl := c.wdeadline
 				closedByConn := c.closed && !stuck
 				c.mu.Unlock()
 				// monitors
@@ -322,6 +323,9 @@ func genC10(env *core.Env, emit func(core.Case)) {
 				}
 				if w == "" && err == nil && !dl.IsZero() {
 					w = "a deadline set on behalf of the NewConn context is still in force after a successful return"
+				}
+				if w == "" && err == nil && !wdl.IsZero() {
+					w = "a WRITE deadline set on behalf of the NewConn context is still in force after a successful return: every later Write to the client times out"
 				}
 				if w == "" && err == nil && ord == "cancel-after-return-then-retry-io" {
 					afterOK = false
